@@ -151,4 +151,285 @@ theorem putColl_putColl (r : Row) (c : AttrId) (i a rm : ObjId → Bool) (n : In
   cases r with | mk ent status pk savePos wbits val items added removed count =>
   simp only [Row.putColl, set1_set1, set1_self]
 
+theorem Row.ext' {r1 r2 : Row} (h1 : r1.ent = r2.ent) (h2 : r1.status = r2.status) (h3 : r1.pk = r2.pk) (h4 : r1.savePos = r2.savePos)
+    (h5 : r1.wbits = r2.wbits) (h6 : r1.val = r2.val) (h7 : r1.items = r2.items) (h8 : r1.added = r2.added)
+    (h9 : r1.removed = r2.removed) (h10 : r1.count = r2.count) : r1 = r2 := by
+  cases r1; cases r2; simp_all
+
+/-- `r2` is `r` except for status, write bits, save position and values -/
+def SameBut (r r2 : Row) : Prop :=
+  r2.ent = r.ent ∧ r2.pk = r.pk ∧ r2.items = r.items ∧ r2.added = r.added ∧ r2.removed = r.removed ∧ r2.count = r.count
+
+/-- undoing index moves touches the two key indexes only -/
+theorem undoMoves_fields (o : ObjId) (moves : List IdxMove) : ∀ (T : Store),
+    (moves.foldl (undoMove o) T).n = T.n ∧ (moves.foldl (undoMove o) T).row = T.row ∧ (moves.foldl (undoMove o) T).toSave = T.toSave ∧
+    (moves.foldl (undoMove o) T).pkIdx = T.pkIdx ∧ (moves.foldl (undoMove o) T).modColl = T.modColl := by
+  induction moves with
+  | nil => intro T; exact ⟨rfl, rfl, rfl, rfl, rfl⟩
+  | cons m ms ih =>
+    intro T
+    simp only [List.foldl_cons]
+    obtain ⟨a, b, c, d, e⟩ := ih (undoMove o T m)
+    rw [a, b, c, d, e]
+    cases m <;> exact ⟨rfl, rfl, rfl, rfl, rfl⟩
+
+/-- the value restore of the closure: Attribute.__set__ writes the old value back, Entity.set does not touch values -/
+def fixVal (oa : Option (AttrId × Option Nat)) (v : AttrId → Option Nat) : AttrId → Option Nat :=
+  match oa with
+  | none => v
+  | some (a, old) => set1 v a old
+
+theorem upd_id (s : Store) (o : ObjId) : s.upd o (fun r => r) = s := by
+  cases s; simp only [Store.upd]; congr 1; funext p; split <;> rfl
+
+/-- the undo closure of Attribute.__set__ / Entity.set against the store `s2` the call produced from `s` -/
+theorem markUndo_eqv {k : Nat} {s s2 : Store} {o : ObjId} {pop : Bool} {moves : List IdxMove} (oa : Option (AttrId × Option Nat))
+    (hn : s2.n = s.n) (hpk : s2.pkIdx = s.pkIdx) (hmc : s2.modColl = s.modColl)
+    (hother : ∀ p, p ≠ o → s2.row p = s.row p)
+    (hsame : SameBut (s.row o) (s2.row o))
+    (hval : fixVal oa (s2.row o).val = (s.row o).val)
+    (hq : if pop then s2.toSave = s.toSave ++ [some o] ∧ (s.row o).savePos = none
+          else s2.toSave = s.toSave ∧ (s2.row o).savePos = (s.row o).savePos)
+    (hidx : ∀ T : Store, T.idx = s2.idx → T.cidx = s2.cidx →
+      (moves.foldl (undoMove o) T).idx = s.idx ∧ (moves.foldl (undoMove o) T).cidx = s.cidx)
+    (t : Store) (ht : Eqv k s2 t) :
+    Eqv k s (moves.foldl (undoMove o)
+      (((if pop then popSave o (t.upd o fun r => { r with status := (s.row o).status, wbits := (s.row o).wbits })
+         else (t.upd o fun r => { r with status := (s.row o).status, wbits := (s.row o).wbits })).upd o
+            fun r => { r with val := fixVal oa r.val }))) := by
+  generalize hT : ((if pop then popSave o (t.upd o fun r => { r with status := (s.row o).status, wbits := (s.row o).wbits })
+         else (t.upd o fun r => { r with status := (s.row o).status, wbits := (s.row o).wbits })).upd o
+            fun r => { r with val := fixVal oa r.val }) = T
+  obtain ⟨f1, f2, f3, f4, f5⟩ := undoMoves_fields o moves T
+  have hTn : T.n = t.n := by subst hT; cases pop <;> rfl
+  have hTpk : T.pkIdx = t.pkIdx := by subst hT; cases pop <;> rfl
+  have hTmc : T.modColl = t.modColl := by subst hT; cases pop <;> rfl
+  have hTidx : T.idx = t.idx := by subst hT; cases pop <;> rfl
+  have hTcidx : T.cidx = t.cidx := by subst hT; cases pop <;> rfl
+  have hTq : T.toSave = if pop then t.toSave.dropLast else t.toSave := by subst hT; cases pop <;> rfl
+  have hTother : ∀ p, p ≠ o → T.row p = t.row p := by
+    intro p hp; subst hT; cases pop <;> simp [popSave, Store.upd, hp]
+  have hTo : T.row o = { (t.row o) with status := (s.row o).status, wbits := (s.row o).wbits,
+                                        savePos := if pop then none else (t.row o).savePos, val := fixVal oa (t.row o).val } := by
+    subst hT; cases pop <;> simp [popSave, Store.upd]
+  obtain ⟨i1, i2⟩ := hidx T (hTidx.trans ht.idx.symm) (hTcidx.trans ht.cidx.symm)
+  refine ⟨?_, ?_, ?_, i1.symm, i2.symm, ?_, ?_, ?_⟩
+  · rw [f1, hTn, ← ht.n, hn]
+  · rw [f3, hTq, ← ht.toSave]
+    cases pop
+    · simp only [Bool.false_eq_true, if_false] at hq ⊢; exact hq.1.symm
+    · simp only [if_true] at hq ⊢; rw [hq.1, List.dropLast_concat]
+  · rw [f4, hTpk, ← ht.pkIdx, hpk]
+  · rw [f5, hTmc, ← ht.modColl, hmc]
+  · intro p hp
+    rw [f2]
+    by_cases hpo : p = o
+    · rw [hpo, hTo]
+    · rw [hTother p hpo, ← ht.status p (hn ▸ hp), hother p hpo]
+  · intro p hp
+    rw [f2]
+    by_cases hpo : p = o
+    · rw [hpo] at hp ⊢
+      rw [hTo]
+      have e := ht.row o hp
+      obtain ⟨b1, b2, b3, b4, b5, b6⟩ := hsame
+      apply Row.ext'
+      · show _ = (t.row o).ent; rw [← e, b1]
+      · rfl
+      · show _ = (t.row o).pk; rw [← e, b2]
+      · show _ = (if pop then none else (t.row o).savePos)
+        cases pop
+        · simp only [Bool.false_eq_true, if_false] at hq ⊢; rw [← e, hq.2]
+        · simp only [if_true] at hq ⊢; exact hq.2
+      · rfl
+      · show _ = fixVal oa (t.row o).val; rw [← e, hval]
+      · show _ = (t.row o).items; rw [← e, b3]
+      · show _ = (t.row o).added; rw [← e, b4]
+      · show _ = (t.row o).removed; rw [← e, b5]
+      · show _ = (t.row o).count; rw [← e, b6]
+    · rw [hTother p hpo, ← ht.row p hp, hother p hpo]
+
+/-- what the start of Attribute.__set__ / Entity.set (and a following value write to the same row) does to the store -/
+structure MarkSpec (s : Store) (o : ObjId) (s1 : Store) (pop : Bool) : Prop where
+  n : s1.n = s.n
+  pkIdx : s1.pkIdx = s.pkIdx
+  idx : s1.idx = s.idx
+  cidx : s1.cidx = s.cidx
+  modColl : s1.modColl = s.modColl
+  other : ∀ p, p ≠ o → s1.row p = s.row p
+  same : SameBut (s.row o) (s1.row o)
+  q : if pop then s1.toSave = s.toSave ++ [some o] ∧ ((s.row o).status = .inserted ∨ (s.row o).status = .updated) ∧
+                  (s1.row o).savePos = some s.toSave.length ∧ (s1.row o).status = .modified
+      else s1.toSave = s.toSave ∧ (s1.row o).savePos = (s.row o).savePos ∧ (s1.row o).status = (s.row o).status
+
+theorem mark_spec (o : ObjId) (bits : List AttrId) (force : Bool) (s : Store) :
+    MarkSpec s o (mark o bits force s).1 (mark o bits force s).2 ∧ ((mark o bits force s).1.row o).val = (s.row o).val := by
+  unfold mark
+  dsimp only
+  have hrefl : MarkSpec s o s false := ⟨rfl, rfl, rfl, rfl, rfl, fun _ _ => rfl, ⟨rfl, rfl, rfl, rfl, rfl, rfl⟩, ⟨rfl, rfl, rfl⟩⟩
+  split
+  · exact ⟨hrefl, rfl⟩
+  · split
+    · exact ⟨hrefl, rfl⟩
+    · split
+      · rename_i hs
+        refine ⟨⟨rfl, rfl, rfl, rfl, rfl, ?_, ?_, ?_⟩, ?_⟩
+        · intro p hp; simp [Store.upd, hp]
+        · simp [SameBut, Store.upd]
+        · simp only [if_true]
+          refine ⟨rfl, by simpa using hs, ?_, ?_⟩ <;> simp [Store.upd]
+        · simp [Store.upd]
+      · refine ⟨⟨rfl, rfl, rfl, rfl, rfl, ?_, ?_, ?_⟩, ?_⟩
+        · intro p hp; simp [Store.upd, hp]
+        · simp [SameBut, Store.upd]
+        · simp [Store.upd]
+        · simp [Store.upd]
+
+/-- a value write to the marked row keeps the specification -/
+theorem MarkSpec.setVal {s s1 : Store} {o : ObjId} {pop : Bool} (h : MarkSpec s o s1 pop) (v : AttrId → Option Nat) :
+    MarkSpec s o (s1.upd o fun r => { r with val := v }) pop := by
+  obtain ⟨a1, a2, a3, a4, a5, a6, a7, a8⟩ := h
+  refine ⟨a1, a2, a3, a4, a5, ?_, ?_, ?_⟩
+  · intro p hp; rw [upd_row_other _ _ _ _ hp]; exact a6 p hp
+  · rw [upd_row_same]; exact a7
+  · rw [upd_row_same]; exact a8
+
+theorem MarkSpec.saveOk {s s1 : Store} {o : ObjId} {pop : Bool} (h : MarkSpec s o s1 pop) (hs : SaveOk s) : SaveOk s1 := by
+  intro p
+  obtain ⟨h1, h2⟩ := hs p
+  cases pop
+  · have hq := h.q; simp only [Bool.false_eq_true, if_false] at hq
+    by_cases hp : p = o
+    · rw [hp] at h1 h2 ⊢; rw [hq.1, hq.2.1, hq.2.2]; exact ⟨h1, h2⟩
+    · rw [h.other p hp, hq.1]; exact ⟨h1, h2⟩
+  · have hq := h.q; simp only [if_true] at hq
+    by_cases hp : p = o
+    · rw [hp]
+      refine ⟨fun q hq' => ?_, fun hst => ?_⟩
+      · rw [hq.2.2.1] at hq'
+        cases hq'
+        rw [hq.1]; simp
+      · rw [hq.2.2.2] at hst; rcases hst with hst | hst <;> cases hst
+    · rw [h.other p hp, hq.1]
+      refine ⟨fun q hq' => ?_, h2⟩
+      have := h1 q hq'
+      rw [List.getElem?_append_left]
+      · exact this
+      · by_cases hlt : q < s.toSave.length
+        · exact hlt
+        · rw [List.getElem?_eq_none (Nat.le_of_not_lt hlt)] at this; cases this
+
+/-- pushing the closure of Attribute.__set__ (`oa = some (a, old value)`) / Entity.set (`oa = none`) after the marking, value write and index moves -/
+theorem step_markEntry {s0 : Store} {st : St} {s2 : Store} {o : ObjId} {pop : Bool} {moves : List IdxMove} (e : Undo) (oa : Option (AttrId × Option Nat))
+    (hspec : MarkSpec st.store o s2 pop) (hval : fixVal oa (s2.row o).val = (st.store.row o).val)
+    (hundo : ∀ t, undo1 t e = moves.foldl (undoMove o)
+      (((if pop then popSave o (t.upd o fun r => { r with status := (st.store.row o).status, wbits := (st.store.row o).wbits })
+         else (t.upd o fun r => { r with status := (st.store.row o).status, wbits := (st.store.row o).wbits })).upd o
+            fun r => { r with val := fixVal oa r.val })))
+    (hidx : Good s0 st → ∀ T : Store, T.idx = s2.idx → T.cidx = s2.cidx →
+      (moves.foldl (undoMove o) T).idx = st.store.idx ∧ (moves.foldl (undoMove o) T).cidx = st.store.cidx) :
+    Step s0 st ((st.setStore s2).log e) := by
+  apply Step.push
+  · intro g; exact hspec.saveOk g.save
+  · exact Nat.le_of_eq hspec.n.symm
+  · intro g t ht
+    rw [hundo t]
+    refine markUndo_eqv oa hspec.n hspec.pkIdx hspec.modColl hspec.other hspec.same hval ?_ (hidx g) t ht
+    have hq := hspec.q
+    cases pop
+    · simp only [Bool.false_eq_true, if_false] at hq ⊢; exact ⟨hq.1, hq.2.1⟩
+    · simp only [if_true] at hq ⊢; exact ⟨hq.1, (g.save o).2 hq.2.1⟩
+
+/-! ### the primitive steps -/
+
+section prims
+variable {s0 : Store}
+
+theorem step_touchKey (c : AttrId) (st : St) : Step s0 st (touchKey c st) := by
+  unfold touchKey
+  apply Step.unlogged
+  · intro g; exact g.save.of_eq rfl (fun o => ⟨rfl, rfl⟩)
+  · exact Nat.le_refl _
+  · intro g t ht; exact ⟨ht.n, ht.toSave, ht.pkIdx, ht.idx, ht.cidx, ht.modColl, ht.status, ht.row⟩
+
+/-- a logged step that rewrites one row with `f`, sets `modColl c obj`, and whose undo rewrites the row with `g` and
+    restores `modColl c obj` -/
+theorem step_rowMod (st : St) (c : AttrId) (obj : ObjId) (f g : Row → Row) (e : Undo)
+    (hundo : ∀ t, undo1 t e = (if st.store.modColl c obj then t.upd obj g else { (t.upd obj g) with modColl := set2 (t.upd obj g).modColl c obj false }))
+    (hinv : g (f (st.store.row obj)) = st.store.row obj)
+    (hf : ∀ r, (f r).status = r.status ∧ (f r).savePos = r.savePos)
+    (hg : ∀ r, (g r).status = r.status) :
+    Step s0 st ((st.setStore { (st.store.upd obj f) with modColl := set2 (st.store.upd obj f).modColl c obj true }).log e) := by
+  apply Step.push
+  · intro gd
+    refine SaveOk.of_eq (s := st.store) gd.save rfl ?_
+    intro o
+    show ((st.store.upd obj f).row o).savePos = _ ∧ ((st.store.upd obj f).row o).status = _
+    by_cases ho : o = obj
+    · subst ho; simp only [upd_row_same]; exact ⟨(hf _).2, (hf _).1⟩
+    · rw [upd_row_other _ _ _ _ ho]; exact ⟨rfl, rfl⟩
+  · exact Nat.le_refl _
+  · intro gd t ht
+    rw [hundo t]
+    have hmc : t.modColl = set2 st.store.modColl c obj true := ht.modColl.symm
+    have hrows : ∀ p, p < s0.n → (t.upd obj g).row p = st.store.row p := by
+      intro p hp
+      have := ht.row p hp
+      by_cases hpo : p = obj
+      · subst hpo
+        simp only [upd_row_same] at this ⊢
+        rw [← this, hinv]
+      · simp only [upd_row_other _ _ _ _ hpo] at this ⊢
+        exact this.symm
+    have hstat : ∀ p, p < st.store.n → (st.store.row p).status = ((t.upd obj g).row p).status := by
+      intro p hp
+      have := ht.status p hp
+      by_cases hpo : p = obj
+      · subst hpo
+        simp only [upd_row_same] at this ⊢
+        rw [hg, ← this, (hf _).1]
+      · simp only [upd_row_other _ _ _ _ hpo] at this ⊢
+        exact this
+    cases hm : st.store.modColl c obj
+    · simp only [Bool.false_eq_true, if_false]
+      refine ⟨ht.n, ht.toSave, ht.pkIdx, ht.idx, ht.cidx, ?_, hstat, fun p hp => (hrows p hp).symm⟩
+      show st.store.modColl = set2 t.modColl c obj false
+      rw [hmc]; exact (set2_undo _ _ _ _ _ hm).symm
+    · simp only [if_true]
+      refine ⟨ht.n, ht.toSave, ht.pkIdx, ht.idx, ht.cidx, ?_, hstat, fun p hp => (hrows p hp).symm⟩
+      show st.store.modColl = t.modColl
+      rw [hmc, ← hm, set2_self]
+
+theorem step_reverseAdd1 (c : AttrId) (item obj : ObjId) (st : St) : Step s0 st (reverseAdd1 c item obj st).st := by
+  unfold reverseAdd1
+  dsimp only
+  split
+  · exact Step.refl _ _
+  · rename_i hchk
+    simp only [Bool.or_eq_true, not_or, Bool.not_eq_true] at hchk
+    exact step_rowMod st c obj (fun r => r.revAdd c item ((st.store.row obj).removed c item))
+      (fun r => r.unRevAdd c item ((st.store.row obj).removed c item))
+      (Undo.revAdd c obj item ((st.store.row obj).removed c item) (st.store.modColl c obj)) (fun t => rfl)
+      (unRevAdd_revAdd _ c item hchk.1 hchk.2) (fun r => ⟨rfl, rfl⟩) (fun r => rfl)
+
+theorem step_reverseRemove1 (c : AttrId) (item obj : ObjId) (st : St) : Step s0 st (reverseRemove1 c item obj st).st := by
+  unfold reverseRemove1
+  dsimp only
+  split
+  · exact Step.refl _ _
+  · rename_i hchk
+    simp only [Bool.or_eq_true, not_or, Bool.not_eq_true, Bool.not_eq_eq_eq_not, Bool.not_true, Bool.not_false] at hchk
+    exact step_rowMod st c obj (fun r => r.revRemove c item ((st.store.row obj).added c item))
+      (fun r => r.unRevRemove c item ((st.store.row obj).added c item))
+      (Undo.revRemove c obj item ((st.store.row obj).added c item) (st.store.modColl c obj)) (fun t => rfl)
+      (unRevRemove_revRemove _ c item (by simpa using hchk.1) hchk.2) (fun r => ⟨rfl, rfl⟩) (fun r => rfl)
+
+theorem step_reverseAdd (c : AttrId) (objs : List ObjId) (item : ObjId) (st : St) : Step s0 st (reverseAdd c objs item st).st :=
+  (step_touchKey c st).trans (step_iter (fun obj st => step_reverseAdd1 c item obj st) objs _)
+
+theorem step_reverseRemove (c : AttrId) (objs : List ObjId) (item : ObjId) (st : St) : Step s0 st (reverseRemove c objs item st).st :=
+  (step_touchKey c st).trans (step_iter (fun obj st => step_reverseRemove1 c item obj st) objs _)
+
+end prims
+
 end PonyVerif.Model.Undo
